@@ -131,6 +131,24 @@ func MultiPolygon(box orb.Bound, mp orb.MultiPolygon, o orb.Orientation) orb.Mul
 	}
 
 	outers, closedOuters := clipRings(box, outerRings)
+	if len(outers) == 0 && len(closedOuters) == 0 {
+		// no outer ring reaches into the bound, but the bound may lie within
+		// a polygon whose holes do: clip those like Polygon does.
+		var rings []orb.Ring
+		for _, p := range mp {
+			rings = append(rings, p...)
+		}
+
+		if open, closed := clipRings(box, rings); len(open) != 0 {
+			result := smartWrap(box, open, o)
+			for _, i := range closed {
+				result = addToMultiPolygon(result, i)
+			}
+
+			return result
+		}
+	}
+
 	if len(outers) == 0 {
 		// nothing was clipped
 		if len(closedOuters) == 0 {
